@@ -123,6 +123,18 @@ def edits(root, sm):
                 def f(root, ci=ci):
                     containers(root)[ci][0].append(mk("key", name="+", attribute="zz_wild2"))
                 add(tag + "-second-wildcard-key", depth, f)
+    # R9 a key name that does not give an identifier as implied attribute
+    for ci, (el, cname) in enumerate(conts):
+        depth = 0 if cname is None else 1
+        C = sm.top if cname is None else sm.types.get(cname)
+        if C is not None and C.kt != "identifier":
+            def f(root, ci=ci):
+                containers(root)[ci][0].append(mk("key", name="zz.dotted"))
+            add("R9:dotted-key-name-without-attribute", depth, f)
+
+            def f(root, ci=ci):
+                containers(root)[ci][0].append(mk("multikey", name="zz.dotted.m"))
+            add("R9:dotted-multikey-name-without-attribute", depth, f)
     # R3 use before definition
     for ci, (el, cname) in enumerate(conts):
         depth = 0 if cname is None else 1
@@ -192,6 +204,12 @@ def edits(root, sm):
                 def f(root, at=at):
                     at(root).set("name", "fixedname")
                 add("R6:multisection-fixed-name", depth, f)
+            if it.tag in ("section", "multisection"):
+                def f(root, at=at):
+                    e = at(root)
+                    e.set("name", "")
+                    e.set("attribute", e.get("attribute") or "zz_empty")
+                add("R9:empty-section-name", depth, f)
             if it.tag == "key" and name != "+":
                 def f(root, at=at):
                     e = at(root)
